@@ -36,7 +36,7 @@ class C04(PropBase):
         n = 250 if tier == "quick" else 3000
         out = []
         for i in range(n):
-            klass = rng.choice(["distinct", "distinct", "distinct-audit", "duplicates", "scales", "empty-vs-absent", "priced"])
+            klass = rng.choice(["distinct", "distinct", "distinct-audit", "duplicates", "scales", "empty-vs-absent", "priced", "uuid-vs-absent"])
             cfg = {"group_by": rng.choice(["year", "month", "date", "iso-week", "iso-week-date"])}
             opts = {"p_invalid": 0.0, "n_txns": rng.choice([2, 3, 4, 5, 6, 8]), "comms": common.COMMS[:rng.randrange(1, 4)],
                     "p_comments": 0.3, "p_tags": 0.3, "p_loc": 0.2}
@@ -82,6 +82,14 @@ class C04(PropBase):
                 txns = txns[:len(variants)]
                 for k, t in enumerate(txns):
                     t["code"], t["desc"] = variants[k]
+            if klass == "uuid-vs-absent":
+                # identical instant, code and description; distinguishable only by the uuid, one transaction has none
+                j = rng.randrange(len(txns))
+                for k in range(len(txns)):
+                    for f in ("ts", "code", "desc"):
+                        txns[k][f] = copy.deepcopy(txns[j][f])
+                    txns[k]["uuid"] = common.gen_uuid(rng)
+                txns[rng.randrange(len(txns))]["uuid"] = None
             if klass == "scales":
                 # F8 shape: children of one node with different scales that cancel
                 t = txns[0]
